@@ -29,6 +29,11 @@ class Ctx:
         self.config = config
         self.instances = []
         self.rule_stats = {}
+        # anchor floors are the counts confirmed on the reference tree.  The frozen reference (fixtures/base) is held to them
+        # exactly on every run (that is what detects a rotten extractor or recogniser); the tree under analysis may have
+        # consolidated code (helpers merged, duplicated searches folded into one), so it is held to half of them: a
+        # collapse is still reported, a merge is not
+        self.floor_scale = 0.5
 
     def add(self, rule, fn, sig, verdict, msg, props, line=None, details=None, nontrivial=True):
         """fn: Fn or None; sig: line-free instance signature"""
@@ -48,6 +53,9 @@ class Ctx:
         msg = 'anchor-missing: %s' % what
         if floor is not None:
             msg += ' (found %s, floor %s)' % (found, floor)
+            import math
+            if isinstance(found, int) and found >= max(1, math.ceil(floor * self.floor_scale)):
+                return self.add(rule, None, 'anchor:' + what, 'info', 'fewer anchors than on the reference tree: %s (found %s, reference %s): accepted as consolidation' % (what, found, floor), props, nontrivial=False)
         return self.add(rule, None, 'anchor:' + what, 'violation', msg, props)
 
     def stat(self, rule, **kw):
